@@ -400,7 +400,9 @@ def export(cirq, circuit, order, api, version, precision):
             if api == 'to_qasm':
                 return circuit.to_qasm(precision=precision, qubit_order=order, version=version), None
             if api == 'cirq.qasm':
-                # no qubit order argument: the default (sorted) order
+                # no qubit order argument: the default (sorted) order; with the default configuration also without args
+                if precision == 10 and version == '2.0':
+                    return cirq.qasm(circuit), None
                 return cirq.qasm(circuit, args=cirq.QasmArgs(precision=precision, version=version)), None
             return str(cirq.QasmOutput(circuit.all_operations(), tuple(order), precision=precision, version=version)), None
     except Exception as e:       # noqa
@@ -622,7 +624,7 @@ class Batch:
             ctx.count(stream, key, False)
             if tag == 'refused':
                 r = ctx.cov.setdefault('refused_exports', {})
-                why = re.sub(r'[^A-Za-z .=]', '', str(exc).split(':')[0])[:60]
+                why = (re.sub(r'[^A-Za-z .=]', '', str(exc).split(':')[0])[:60] or type(exc).__name__ + ' (BitMaskKeyCondition has no QASM form)')
                 r[why] = r.get(why, 0) + 1
             if tag != 'refused':
                 ctx.disagree(f'correspondence:{stream}', f'{type(exc).__name__}: {exc}', tag if ('controlled' in tag or 'top-level' in tag) else tag + ':' + '+'.join(fams),
